@@ -72,7 +72,7 @@ PROPS = {
              "fields are corrupted in place, and all of these mixed into C01-style histories; oracle = recover() around Check + verdict well-formedness; "
              "non-trivial = a malformed input was delivered; distinct = canonical event trace",
              {"runs": 25000, "budget_s": 35}, {"runs": 600000, "budget_s": 900},
-             must={"all": ["raw-requests", "token-raw-body", "store-lie", "jwks-raw-body", "discovery-raw-body"]}),
+             must={"all": ["raw-requests", "token-raw-body", "store-lie", "jwks-raw-body", "discovery-raw-body", "concurrent-session-loss-runs"]}),
     "C12": P("plans = sequences of 5-80 store operations (set/get tokens, set/get/clear login state, remove, sweep, clock advance) over 1-4 session ids, each routed to the memory store or to one of "
              "two Redis store instances sharing one miniredis; after every operation the return value is compared with a plain-map model and the complete ground-truth content of each store is "
              "compared with the model (tokens, login state, creation time, no foreign ids); a third of the plans inject Redis command failures (before/after effect) and crashes between the "
